@@ -84,3 +84,65 @@ def classname_defs(fn_node):
                 break
     return out
 
+
+
+def copy_does_not_alias(ctx, R, rule_id, cls_qual, consequence):
+    """obligation: <class>.__copy__ never hands the copy one of the original's mutable containers itself: an attribute that the class creates as a
+    container (in __init__) is copied with list()/set()/dict()/.copy(), not assigned as `new.attr = self.attr`"""
+    ci = ctx.p.cls(cls_qual)
+    cp = ci.methods.get("__copy__")
+    if cp is None:
+        raise AnalysisError("%s.__copy__ vanished" % cls_qual)
+    init = ci.methods.get("__init__")
+    containers = set()
+    for g in ([init] if init is not None else []):
+        for st, t, k in stores_in(g.node):
+            if k == "assign" and isinstance(t, ast.Attribute) and isinstance(t.value, ast.Name) and t.value.id == g.self_name and is_fresh_container(st.value):
+                containers.add(t.attr)
+    me = cp.self_name
+    bad = None
+    n = 0
+    for st, t, k in stores_in(cp.node):
+        if k == "assign" and isinstance(t, ast.Attribute) and t.attr in containers:
+            n += 1
+            v = st.value
+            if isinstance(v, ast.Attribute) and isinstance(v.value, ast.Name) and v.value.id == me:
+                bad = st
+    R.check(bad is None, rule_id, "%s.__copy__|containers-copied" % ci.name, "container attributes (%s) are given to the copy as new containers (%d assignment(s))" % (
+        ", ".join(sorted(containers)) or "none", n), cp.loc(), ("`%s` makes the copy share the original's container - %s" % (unparse(bad, 60), consequence)) if bad is not None else "")
+
+
+def housekeeping_relookup(ctx, R, rule_id):
+    """obligation: every deletion from the stream table in Daemon._housekeeping follows, in the same loop round, a fresh look-up of that id in the live table that found
+    it (an entry taken from an earlier snapshot may already have been removed, by the first pass or by a request thread: `del` then raises KeyError)"""
+    hk = ctx.fn("Pyro5.server.Daemon._housekeeping")
+    cfg = ctx.cfg(hk)
+    dels = [(st, t) for st, t, k in stores_in(hk.node) if k == "del" and isinstance(t, ast.Subscript) and unparse(t.value).endswith("streaming_responses")]
+    pops = [c for c in walk_no_nested(hk.node) if isinstance(c, ast.Call) and isinstance(c.func, ast.Attribute) and c.func.attr == "pop" and unparse(c.func.value).endswith("streaming_responses")]
+    if not dels and not pops:
+        raise AnalysisError("_housekeeping: the removal of expired streams vanished")
+    bad = None
+    from ..engine.context import enclosing_loops
+    for st, t in dels:
+        key = unparse(t.slice)
+        loops = enclosing_loops(st, hk.node)
+        fresh = [s2 for s2, t2, k2 in stores_in(hk.node) if k2 == "assign" and isinstance(s2.value, ast.Call) and isinstance(s2.value.func, ast.Attribute)
+                 and s2.value.func.attr == "get" and unparse(s2.value.func.value).endswith("streaming_responses") and s2.value.args and unparse(s2.value.args[0]) == key
+                 and loops and loops[0] in enclosing_loops(s2, hk.node)]
+        ok = bool(fresh) and all(any(cfg.dominates(a, b) for f_ in fresh for a in cfg.nodes_for(f_)) for b in cfg.nodes_for(st))
+        if ok:
+            var = fresh[0].targets[0].id if isinstance(fresh[0].targets[0], ast.Name) else None
+
+            def found(atom, pol, var=var):
+                return pol is True and isinstance(atom, ast.Name) and atom.id == var
+            from .c03 import edge_has_fact
+            ok = var is not None and all(cfg.guarded(b, lambda e: edge_has_fact(e, found)) for b in cfg.nodes_for(st))
+        if not ok:
+            bad = st
+    for c in pops:
+        if len(c.args) < 2:
+            bad = c
+    R.check(bad is None, rule_id, "_housekeeping|removal-after-fresh-lookup", "an expired stream is deleted only after this round's own look-up in the live table found it (or with pop(id, default))",
+            hk.loc(bad) if bad is not None else hk.loc(),
+            "`%s` deletes an entry that was read from an earlier snapshot: a stream already removed (by the other clean-up pass or a request thread) raises KeyError, which ends the "
+            "multiplex request loop / the housekeeper thread" % (unparse(bad, 60) if bad is not None else ""))
